@@ -161,7 +161,7 @@ PROPS["C12"] = {
 }
 
 PROPS["C06"] = {
-    "imports": JSON_IMPORTS, "prelude": "Definition cfg := Cfg{TAG}.cfg.",
+    "imports": JSON_IMPORTS + " Spec.Lnotab Spec.Dis Model.ViewSer Proofs.C02_Statements Proofs.C06_Statements", "prelude": "Definition cfg := Cfg{TAG}.cfg.",
     "level_text": "TODO", "level_note": "TODO", "trusted_base": COMMON_TB, "assumptions": [],
     "rule": "histories of 1-8 (thorough 1-20) operations over {code round trip, JSON round trip, normalize} on corpus / generated objects; variants built by independent mutators "
             "(table permutation with operand renumbering, padding with unreferenced entries, CO_NESTED toggle, redundant EXTENDED_ARG 0 prefix with jump re-targeting and rebuilt line table); distinct = distinct (object, history or variant)",
